@@ -35,6 +35,7 @@ EXPLANATION = (
     ' (28) SIB: Padding.pack() and padding_values() state the same unsized total for a given width, compared as linear forms (fix a506415: min_width widened pack() but not render()).'
     ' Round 8: (29) GUARD: a pad_trim call by target - actual is not placed under a one-sided comparison of the two (unless the other side cannot occur or is handled by a test of its own); (30) RUNPOS: every pad segment (n, None) the layout module builds has n shown non-zero.'
     ' Round-8 triage: (31) GUARD: a method whose size may be () indexes it only under a test of the size (fix c5b9499).'
+    ' (28) now compares the unsized totals of pack() and padding_values() for all three width types (fix d053bde: min_width was applied by pack() only on the pack / relative arms).'
 )
 NOT_DECIDED = (
     "That composed canvases actually have the requested size for all trees/sizes/texts (value semantics of shards, layout and padding); truthfulness of sizing(); wide-character column "
@@ -595,42 +596,70 @@ def rule_inverse_percent(ctx: Ctx) -> RuleResult:
 
 
 def rule_given_total(ctx: Ctx) -> RuleResult:
-    """Padding with a given width under fixed sizing: pack(()) states the total, render(()) builds it from
-    padding_values(()).  Both take it from the same quantities: the first element pack() returns on its
-    `width_type == GIVEN` arm and the total padding_values() computes on its unsized GIVEN arm are the same linear
-    form (given width + left + right).  Before fix a506415 pack() applied max(., min_width) and render() did not:
-    Padding(Text('abc'), 'left', 3, min_width=5).pack(()) said 5 columns, render(()) produced 3."""
+    """Padding under fixed sizing: pack(()) states the total, render(()) builds it from padding_values(()).  For each
+    width type (given, pack, relative) both take the total from the same quantities: the first element pack() returns
+    on that arm and the total (`... + left + right`) padding_values() computes on its unsized arm of the same type
+    are the same linear form over the same sub-expressions.  Before fix a506415 pack() applied max(., min_width) to a
+    given width and render() did not (pack 5, canvas 3); before fix d053bde the pack / relative arms applied
+    min_width in pack() only: Padding(Text('ab'), 'center', ('relative', 50), min_width=10).pack(()) said 10
+    columns, render(()) produced 2."""
     from ..rules.exc import ExcEngine
 
     p = ctx.p
-    rr = RuleResult("SIB", "C01.28", "Padding.pack() and Padding.padding_values() compute the same unsized total for a given width", floor=1)
-    forms = {}
+    rr = RuleResult("SIB", "C01.28", "Padding.pack() and Padding.padding_values() compute the same unsized total for every width type", floor=3)
+    kinds = ("GIVEN", "PACK", "RELATIVE")
+    forms: dict[str, dict[str, tuple]] = {k: {} for k in kinds}
     for name in ("pack", "padding_values"):
         fi = p.func(f"urwid.widget.padding.Padding.{name}")
         du = DefUse(fi)
         cfg = du.cfg
-        tests = [t for t in cfg.nodes if t.kind == "test" and isinstance(t.ast, ast.Compare) and "_width_type" in ast.unparse(t.ast.left) and isinstance(t.ast.ops[0], ast.Eq) and ast.unparse(t.ast.comparators[0]).endswith("GIVEN")]
-        if not tests:
-            raise AnalysisError(f"Padding.{name}: the `self._width_type == WHSettings.GIVEN` test was not found")
-        found = []
+
+        def tests_of(kind):
+            return [t for t in cfg.nodes if t.kind == "test" and isinstance(t.ast, ast.Compare) and "_width_type" in ast.unparse(t.ast.left) and isinstance(t.ast.ops[0], ast.Eq) and ast.unparse(t.ast.comparators[0]).endswith(kind)]
+
+        def on_arm(n, kind):
+            return any(n not in ExcEngine._reach_without_edge(cfg, t, "T") for t in tests_of(kind))
+
+        def total_form(e, at):
+            L = linear(e)
+            if L is None:
+                return None
+            out = {}
+            for k, v in L.items():
+                sub = None
+                if k.isidentifier():
+                    ds = [val for val, _h, _d in du.reaching(k, at) if isinstance(val, ast.AST)]
+                    if len(ds) == 1 and linear(ds[0]) is not None and all(x.startswith("self.") for x in linear(ds[0])):
+                        sub = linear(ds[0])  # `expand = self.left + self.right`
+                for kk, vv in (sub or {k: 1}).items():
+                    out[kk] = out.get(kk, 0) + v * vv
+            return {k: v for k, v in out.items() if v}
+
         for n in cfg.nodes:
-            if not any(n not in ExcEngine._reach_without_edge(cfg, t, "T") for t in tests):
-                continue
             e = None
             if name == "pack" and n.kind == "return" and isinstance(n.ast.value, ast.Tuple) and n.ast.value.elts:
                 e = n.ast.value.elts[0]
-            if name == "padding_values" and isinstance(n.ast, ast.Assign) and "_width_amount" in ast.unparse(n.ast.value):
+            if name == "padding_values" and isinstance(n.ast, ast.Assign) and len(n.ast.targets) == 1 and isinstance(n.ast.targets[0], ast.Name):
                 e = n.ast.value
-            if e is not None:
-                found.append((n, linear(du.expand(e, n))))
-        if len(found) != 1 or found[0][1] is None:
-            raise AnalysisError(f"Padding.{name}: expected one total on the GIVEN arm, found {len(found)}")
-        forms[name] = (fi, found[0][0], found[0][1])
-    a, b = forms["pack"], forms["padding_values"]
-    same = a[2] == b[2]
-    rr.inst("Padding given width", True, {"pack": lin_str(a[2]), "padding_values": lin_str(b[2]), "same": same})
-    if not same:
-        rr.add(finding("SIB", a[0], a[1].stmt, f"pack(()) reports `{lin_str(a[2])}` columns for a given width, render(()) pads to `{lin_str(b[2])}` (padding_values): the canvas is not as wide as the size the widget states - a container that trusts pack() lays the row out for another width", construct="given-width total differs between pack and padding_values"))
+            if e is None:
+                continue
+            L = total_form(e, n)
+            if not L or L.get("self.left") != 1 or L.get("self.right") != 1:
+                continue
+            arm = next((k for k in kinds if on_arm(n, k)), None)
+            if arm is None and name == "padding_values":
+                arm = "RELATIVE"  # the remaining else-arm (clip is handled and left earlier)
+            if arm is not None:
+                forms[arm][name] = (fi, n, L)
+    for kind in kinds:
+        a, b = forms[kind].get("pack"), forms[kind].get("padding_values")
+        if a is None or b is None:
+            raise AnalysisError(f"Padding: the unsized total of the {kind} arm was not found in {'pack' if a is None else 'padding_values'}()")
+        same = a[2] == b[2]
+        rr.inst(f"Padding {kind.lower()} width", True, {"width_type": kind, "pack": lin_str(a[2]), "padding_values": lin_str(b[2]), "same": same})
+        if not same:
+            cons = "given-width total differs between pack and padding_values" if kind == "GIVEN" else f"{kind.lower()}-width total differs between pack and padding_values"
+            rr.add(finding("SIB", a[0], a[1].stmt, f"pack(()) reports `{lin_str(a[2])}` columns for a {kind.lower()} width, render(()) pads to `{lin_str(b[2])}` (padding_values): the canvas is not as wide as the size the widget states - a container that trusts pack() lays the row out for another width", construct=cons))
     return rr
 
 
@@ -827,6 +856,7 @@ _COLS = "urwid/widget/columns.py"
 _CANV = "urwid/canvas.py"
 _TEXT = "urwid/widget/text.py"
 MUTANTS = [
+    Mut("padding-pack-arm-total-without-min-width", "urwid/widget/padding.py", "Padding.padding_values", "                maxcol = max(width, self.min_width or 1) + self.left + self.right\n", "                maxcol = width + self.left + self.right\n", "SIB|widget.padding.Padding.pack|pack-width total differs between pack and padding_values"),
     Mut("padding-blank-width-from-size", "urwid/widget/padding.py", "Padding.render", "size[0] if size else self.pack(size, focus)[0]", "size[0]", "GUARD|widget.padding.Padding.render|render: size[0] without a size test"),
     Mut("padding-pack-given-min-width", "urwid/widget/padding.py", "Padding.pack", "                self._width_amount + expand,\n", "                max(self._width_amount, self.min_width or 1) + expand,\n", "SIB|widget.padding.Padding.pack|given-width total differs between pack and padding_values"),
     Mut("twin-padding-pack-given-spelled-out", "urwid/widget/padding.py", "Padding.pack", "                self._width_amount + expand,\n", "                self.right + self._width_amount + self.left,\n", twin=True),
@@ -838,7 +868,7 @@ MUTANTS = [
     Mut("progressbar-smooth-unguarded-run", "urwid/widget/progress_bar.py", "ProgressBar.render", "            if ccol > 0:\n                a.append((self.complete, ccol))\n", "            a.append((self.complete, ccol))\n", "RUNPOS|widget.progress_bar.ProgressBar.render|run length ccol not shown positive"),
     Mut("progressbar-full-test-off-by-one", "urwid/widget/progress_bar.py", "ProgressBar.render", "        elif ccol >= maxcol:", "        elif ccol > maxcol:", "RUNPOS|widget.progress_bar.ProgressBar.render|run length maxcol - ccol not shown positive"),
     Mut("twin-progressbar-positive-test", "urwid/widget/progress_bar.py", "ProgressBar.render", "        elif ccol == 0:\n", "        elif not ccol > 0:\n", twin=True),
-    Mut("padding-relative-total-floored", "urwid/widget/padding.py", "Padding.padding_values", "max(int(self._original_widget.pack((), focus=focus)[0] * 100 / self._width_amount + 0.5), self.min_width or 1)", "max(self._original_widget.pack((), focus=focus)[0] * 100 // self._width_amount, self.min_width or 1)", "SIB|widget.padding.Padding.padding_values|inverse percent not rounded to nearest"),
+    Mut("padding-relative-total-floored", "urwid/widget/padding.py", "Padding.padding_values", "max(int(width * 100 / self._width_amount + 0.5), self.min_width or 1)", "max(width * 100 // self._width_amount, self.min_width or 1)", "SIB|widget.padding.Padding.padding_values|inverse percent not rounded to nearest"),
     Mut("overlay-pack-relative-truncated", "urwid/widget/overlay.py", "Overlay.pack", "            cols = int(w_cols * 100 / self.width_amount + 0.5)", "            cols = int(w_cols * 100 / self.width_amount)", "SIB|widget.overlay.Overlay.pack|inverse percent not rounded to nearest"),
     Mut("overlay-negative-left-position", "urwid/widget/overlay.py", "Overlay.render", "        return CanvasOverlay(top_c, bottom_c, max(0, left), max(0, top))", "        return CanvasOverlay(top_c, bottom_c, left, top)", "NONNEG|widget.overlay.Overlay.render|possibly negative left as overlay position"),
     Mut("trim-end-keeps-outside-cursor", _CANV, "CompositeCanvas.trim_end", "        self.shards = shards_trim_rows(self.shards, self.rows() - end)\n        self._drop_trimmed_cursor()\n", "        self.shards = shards_trim_rows(self.shards, self.rows() - end)\n", "PASS|canvas.CompositeCanvas.trim_end"),
